@@ -86,9 +86,9 @@ def run(ctx):
             raise MachineryError("sensitivity demonstration failed: CheckBlockRoot=FALSE not noticed (%r)" % (r.violated,))
         ctx.notes.append("demonstration: with CheckBlockRoot=FALSE TLC reports C45_GoodOnlyIfValid violated (expected)")
 
-    plan = [{"name": "random", "family": "random", "n": 90 if q else 1500, "kinds": "", "salt": 0},
-            {"name": "single", "family": "single", "n": 40 if q else 600, "kinds": "", "salt": 1},
-            {"name": "foreign", "family": "random", "n": 14 if q else 150, "kinds": "foreign_blocks,data,ignored", "salt": 2},
+    plan = [{"name": "random", "family": "random", "n": 70 if q else 1500, "kinds": "", "salt": 0},
+            {"name": "single", "family": "single", "n": 30 if q else 600, "kinds": "", "salt": 1},
+            {"name": "foreign", "family": "random", "n": 12 if q else 150, "kinds": "foreign_blocks,data,ignored", "salt": 2},
             {"name": "foreign-single", "family": "single", "n": 6 if q else 50, "kinds": "foreign_blocks", "salt": 3}]
     traces = ctx.impl("harness/checkrepair_driver.py", [], input_obj={"plan": plan})
     shown = {}
